@@ -51,6 +51,10 @@ def cases(tier, seed):
                     yield {'grid': 'B', 'cmax': 1024, 'smax': 16384, 'ts': 1, 'size': 'F+1', 'shape': 'flat', 'source': source,
                            'recep': 'file', 'outcome': outcome, 'entity': entity, 'hist': hist, 'bound': 0, 'seg': None, 'seed': seed,
                            'pre_scu': (len(hist) + len(outcome)) % 2 == 0}
+    for outcome in ('ok-int', 'warn-int'):
+        for entity in ('ae', 'storage-ae'):
+            yield {'grid': 'B', 'cmax': 1024, 'smax': 16384, 'ts': 1, 'size': 'F+1', 'shape': 'flat', 'source': 'dataset',
+                   'recep': 'file', 'outcome': outcome, 'entity': entity, 'hist': 'AB', 'bound': 0, 'seg': None, 'seed': seed}
     # an application-supplied get_file (documented hook returning (file, start)) that appends every instance to one archive file:
     # from the second store on, start is not 0
     for hist in ('A', 'AB', 'ABA'):
@@ -132,7 +136,8 @@ def make_scenario(case, tmp):
                 received.append(('bytes', ds, None, str(context.supported_ts), str(context.sop_class)))
             if outcome == 'ehe':
                 raise exceptions.EventHandlingError('cannot store')
-            return {'ok': statuses.SUCCESS, 'warn': statuses.C_STORE_ELEMENTS_DISCARDED, 'fail': statuses.C_STORE_OUT_OF_RESOURCES}[outcome]
+            return {'ok': statuses.SUCCESS, 'warn': statuses.C_STORE_ELEMENTS_DISCARDED, 'fail': statuses.C_STORE_OUT_OF_RESOURCES,
+                    'ok-int': 0, 'warn-int': 0xB000}[outcome]      # (handlers may answer with a plain status code)
 
         if case['entity'] == 'storage-ae':
             class Srv(pynetdicom2.StorageAE):
@@ -241,7 +246,7 @@ def judge(case, out, storedir):
     if len(received) != len(sent):
         viol.append((sig + ':handler-calls', 'on_receive_store called %d times for %d stores (%s)' % (len(received), len(sent), where)))
         return viol
-    exp_status = {'ok': 0x0000, 'warn': 0xB006, 'fail': 0xA700, 'ehe': 0xC000}[case['outcome']]
+    exp_status = {'ok': 0x0000, 'warn': 0xB006, 'fail': 0xA700, 'ehe': 0xC000, 'ok-int': 0x0000, 'warn-int': 0xB000}[case['outcome']]
     for k, ((inst, raw, st, sttype), (kind, got, fname, gts, gsop)) in enumerate(zip(sent, received)):
         if st != exp_status:
             viol.append((sig + ':status', 'store #%d returned status 0x%04X, the handler answered 0x%04X (%s)' % (k + 1, st, exp_status, where)))
